@@ -33,7 +33,8 @@ pub trait RollingValidNorm<T: IsNone>: Vec1View<T> {
         let mut sum = 0.;
         let mut sum2 = 0.;
         let mut n = 0;
-        let min_periods = min_periods.unwrap_or(window / 2).min(window);
+        // the sample standard deviation needs two observations (as in ts_vstd)
+        let min_periods = min_periods.unwrap_or(window / 2).min(window).max(2);
         self.rolling_apply(
             window,
             |v_rm, v| {
